@@ -333,6 +333,45 @@ def rule_u5(repo, col):
     col.floor("U5.export_functions", len(seen), 6)
 
 
+def rule_u6(repo, col):
+    """enum_clauses: every disjunct of a named disjunction becomes a clause `name :- body`, except a child that extract_ads consumed AND that has no name of its own
+    (scenario table over processed x named; the self-reference test `name == body` is left open)"""
+    f = repo.func("problog.formula", "LogicFormula.enum_clauses")
+    m = f.module
+    loops = [n for n in ast.walk(f.node) if isinstance(n, ast.For) and norm(n.iter).endswith(".children") and isinstance(n.target, ast.Name)]
+    if len(loops) != 1:
+        raise AnalysisError("enum_clauses: loop over the disjuncts not found")
+    lp = loops[0]
+    c = lp.target.id
+    paths = dtable.extract_block(lp.body, opaque_loops=True)
+    named_atoms = sorted({s_ for p_ in paths for s_, _, _ in p_.conds if "_is_valid_name(" in s_ and "abs(%s)" % c in s_})
+    proc_atoms = sorted({s_ for p_ in paths for s_, _, _ in p_.conds if s_.startswith("processed[")})
+    if len(proc_atoms) != 1 or len(named_atoms) > 1:
+        raise AnalysisError("enum_clauses: tests on the disjunct not understood (%s / %s)" % (proc_atoms, named_atoms))
+    n = 0
+    for processed in (False, True):
+        for named in (False, True):
+            mapping = [(proc_atoms[0], processed)] + [(a_, named) for a_ in named_atoms]
+            ps = dtable.compatible(paths, mapping)
+            emits = [any(fn == "Clause" for fn, _, _ in p_.calls) for p_ in ps]
+            other = [s_ for p_ in ps for s_, _, _ in p_.conds if dtable.eval_atom(s_, mapping, None) is None and "str(" not in s_]
+            if other:
+                raise AnalysisError("enum_clauses: emission of a disjunct also depends on %s" % other[0][:80])
+            if not ps:
+                raise AnalysisError("enum_clauses: no path for processed=%s named=%s" % (processed, named))
+            emitted = any(emits)
+            want = (not processed) or named
+            n += 1
+            col.decide("U6", m, lp, emitted == want, "disjunct %s by extract_ads, %s: %s" % ("consumed" if processed else "not consumed", "named" if named else "unnamed", "written" if want else "skipped"),
+                       "enum_clauses %s the clause for a disjunct that extract_ads %s and that %s: %s" % (
+                           "writes" if emitted else "skips", "consumed" if processed else "did not consume", "has a name of its own" if named else "has no name of its own",
+                           "the named head of an annotated disjunction is exported by extract_ads as a head, but `q :- a_head` must still be written for every rule whose body is that head - "
+                           "otherwise the rule silently disappears from the exported program" if want else
+                           "an unnamed choice / body node has no clause of its own in the exported text, so the written clause refers to an undefined atom"),
+                       construct="enum_clauses: disjunct processed=%s named=%s" % (processed, named), function="LogicFormula.enum_clauses")
+    col.floor("U6.disjunct_cases", n, 4)
+
+
 def run(repo, col):
     col.rule("U1", "DIMACS writer: every internal clause emitted exactly once, no weight column, header counts")
     col.rule("U2", "to_dimacs text format")
@@ -344,3 +383,5 @@ def run(repo, col):
     rule_u4(repo, col)
     col.rule("U5", "export path: memo tables keyed by every argument the value depends on")
     rule_u5(repo, col)
+    col.rule("U6", "enum_clauses: which disjuncts are written")
+    rule_u6(repo, col)
